@@ -601,9 +601,14 @@ Definition k_is_idle (k : kstate) : bool :=
                              | NormalKey _ _ _ => pressed_keys_means_not_idle
                              | _ => false end) (states l)).
 
+(* is_idle() with the conjunct that depends on the configuration: an open recording keeps kanata awake when the
+   recorded delays are used *)
+Definition k_is_idle_cfg (cfg : kcfg) (k : kstate) : bool :=
+  k_is_idle k && ((match k_record k with None => true | _ => false end) || negb (kc_dyn_replay_recorded cfg)).
+
 (* can_block_update_idle_waiting(ms_elapsed): (new state, may block) *)
 Definition k_can_block (cfg : kcfg) (k : kstate) (ms : N) : kstate * bool :=
-  let idle := k_is_idle k in
+  let idle := k_is_idle_cfg cfg k in
   let counting := negb (match k_waiting_for_idle k with [] => true | _ => false end) || k_live_reload_requested k in
   let k := if negb idle then set_k_ticks_since_idle 0 k
            else if counting then set_k_ticks_since_idle (sat_add16 (k_ticks_since_idle k) ms) k else k in
